@@ -490,6 +490,17 @@ fn placeholder_lit(rg: &mut Rg, kind: Kind, fields: &[FieldSpec]) -> String {
         let x = order[0];
         order.push(x);
     }
+    // regularly the shortest literal there is: one placeholder without a spec (`{0}`, `{v}`)
+    // (a tuple variant must print all of its fields: format! rejects an unused positional argument)
+    if rg.chance(1, 10) && (kind == Kind::Named || fields.len() == 1) {
+        let printable = |t: FieldTy| !matches!(t, FieldTy::OptU16 | FieldTy::VecU8 | FieldTy::Unit | FieldTy::Arr2 | FieldTy::Pay | FieldTy::Phantom);
+        if let Some(&i) = order.iter().find(|&&i| printable(fields[i].ty)) {
+            let arg = if kind == Kind::Named { fields[i].name.clone().unwrap() } else { format!("{}", i) };
+            if !arg.starts_with("r#") {
+                return format!("{{{}}}", arg);
+            }
+        }
+    }
     // regularly nothing but placeholders (a literal that is exactly `{0:>6}` is a shape of its own)
     let bare = rg.chance(1, 5);
     let texts: &[&str] = if bare { &[""] } else { &texts[..] };
